@@ -7,13 +7,32 @@ rotate.GoogleCertificateTemplate: no external call) under rotate/rotate.go (Key)
 authorities of Model/CA.lean, as the ordered list of external calls.  Core-only.
 
 Cloud KMS itself is a parameter: a cryptoKey is a list of versions numbered 1, 2, … in creation order
-(numbers are never reused); a new version is PENDING_GENERATION for `gen` polls and then turns into
-`final` (ENABLED unless the environment says otherwise); only an ENABLED version answers GetPublicKey /
-AsymmetricSign; DestroyCryptoKeyVersion moves an ENABLED or DISABLED version to DESTROY_SCHEDULED and is
-refused in every other state.  ENABLED versions are the entries of `St.keys` (name ↦ key material),
-all other versions are in `St.kdead`.
+(numbers are never reused).  What state CreateCryptoKeyVersion creates the version in is part of the
+environment (`KmsEnv.created`): PENDING_GENERATION for `gen` polls and then `final` (ENABLED unless the
+environment says otherwise) — the behaviour documented for asymmetric keys —, or directly ENABLED, DISABLED or
+GENERATION_FAILED with no generation phase.  The state the RESPONSE of CreateCryptoKeyVersion reports is the
+created state unless the environment overrides it (`KmsEnv.resp`); the Go code never looks at it.  An ENABLED
+version answers GetPublicKey / AsymmetricSign; whether (and with which key) GetPublicKey answers for a
+DISABLED version is a parameter of the environment (`KmsEnv.pubDisabled`: Cloud KMS's real answer is not
+known here); AsymmetricSign is refused for every state but ENABLED.  DestroyCryptoKeyVersion moves an ENABLED
+or DISABLED version to DESTROY_SCHEDULED and is refused in every other state.  ENABLED versions are the
+entries of `St.keys` (name ↦ key material), all other versions are in `St.kdead`.
 -/
 namespace GceTcb.CA
+
+/-- what a poll reports — go: the `switch updated.GetState()` of waitForKeyVersionGen; also what the
+    response of CreateCryptoKeyVersion reports (`key.GetState()`, which the Go code does not read) -/
+inductive KObs where
+  | enabled | pending | other
+deriving DecidableEq, Repr
+
+/-- the state CreateCryptoKeyVersion creates the new version in -/
+inductive KInit where
+  | pending      -- PENDING_GENERATION with countdown `gen`, then `final`
+  | enabled      -- ENABLED at once, usable
+  | disabled     -- DISABLED at once (has key material, is not usable)
+  | genFailed    -- GENERATION_FAILED at once
+deriving DecidableEq, Repr
 
 /-- the environment of one run on the Cloud KMS stack -/
 structure KmsEnv where
@@ -22,30 +41,58 @@ structure KmsEnv where
   final : Option KState := none    -- what a new version becomes after generation (`none`: ENABLED)
   deadline : Bool := false         -- the context expires while waitForKeyVersionGen sleeps
   corrupt : Bool := false          -- AsymmetricSign's response fails one of the three integrity checks
+  created : KInit := .pending      -- the state a new version is created in
+  resp : Option KObs := none       -- state reported by CreateCryptoKeyVersion's response (`none`: the created state)
+  pubDisabled : Option Nat := none -- GetPublicKey on a DISABLED version: refused (`none`) or answered with this key
 deriving Repr
 
-/-- an environment in which Cloud KMS itself does nothing wrong -/
+/-- the created state as a poll / a response would report it -/
+def KInit.obs : KInit → KObs
+  | .pending => .pending
+  | .enabled => .enabled
+  | .disabled => .other
+  | .genFailed => .other
+
+/-- the created state is one in which the version is or becomes usable -/
+def KInit.good : KInit → Bool
+  | .pending => true
+  | .enabled => true
+  | _ => false
+
+/-- an environment in which Cloud KMS itself does nothing wrong (what the response of
+    CreateCryptoKeyVersion says and what GetPublicKey does with DISABLED versions play no role) -/
 def KmsEnv.benign (env : KmsEnv) : Bool :=
-  env.final.isNone && !env.deadline && !env.corrupt
+  env.final.isNone && !env.deadline && !env.corrupt && env.created.good
+
+/-- the state the response of CreateCryptoKeyVersion reports -/
+def KmsEnv.respObs (env : KmsEnv) : KObs := env.resp.getD env.created.obs
 
 /-- Cloud KMS resource name of version `n` of cryptoKey `parent` -/
 def verName (parent : String) (n : Nat) : String :=
   parent ++ "/cryptoKeyVersions/" ++ toString n
 
-/-- what a poll reports — go: the `switch updated.GetState()` of waitForKeyVersionGen -/
-inductive KObs where
-  | enabled | pending | other
-deriving DecidableEq, Repr
-
 /-! ### the Cloud KMS client (kmspb.KeyManagementServiceClient) -/
 
-/-- CreateCryptoKeyVersion: the next version number, PENDING_GENERATION -/
-def kmsCreate (env : KmsEnv) : Run String :=
+/-- the service's state after CreateCryptoKeyVersion handed out the name `k` -/
+def createVer (env : KmsEnv) (k : String) (s : St) : St :=
+  match env.created with
+  | .pending => { s with kcount := s.kcount + 1, kdead := (k, .pending env.gen) :: s.kdead }
+  | .enabled => { s with kcount := s.kcount + 1, keys := (k, s.nextMat) :: s.keys, nextMat := s.nextMat + 1 }
+  | .disabled => { s with kcount := s.kcount + 1, kdead := (k, .disabled) :: s.kdead }
+  | .genFailed => { s with kcount := s.kcount + 1, kdead := (k, .genFailed) :: s.kdead }
+
+/-- CreateCryptoKeyVersion, the service's side: the next version number, in the state the environment
+    creates versions in -/
+def kmsCreateVer (env : KmsEnv) : Run String :=
   wrap .kmsCreate (do
     let s ← getSt
-    modSt fun s => { s with kcount := s.kcount + 1,
-                            kdead := (verName env.parent (s.kcount + 1), .pending env.gen) :: s.kdead }
+    modSt (createVer env (verName env.parent (s.kcount + 1)))
     pure (verName env.parent (s.kcount + 1)))
+
+/-- CreateCryptoKeyVersion as the client sees it: the name and the state the response reports -/
+def kmsCreate (env : KmsEnv) : Run (String × KObs) := do
+  let k ← kmsCreateVer env
+  pure (k, env.respObs)
 
 /-- GetCryptoKeyVersion: reports the state; generation completes when the countdown has run out -/
 def kmsGet (env : KmsEnv) (k : String) : Run KObs :=
@@ -69,9 +116,16 @@ def kmsGet (env : KmsEnv) (k : String) : Run KObs :=
         pure .pending
       | some _ => pure .other)
 
-/-- GetPublicKey: only an ENABLED version has a retrievable public key -/
-def kmsPub (k : String) : Run Nat :=
-  wrap (.kmsPub k) (do let s ← getSt; ofOption (lookup s.keys k))
+/-- GetPublicKey: an ENABLED version has a retrievable public key; a DISABLED one when the environment says so -/
+def kmsPub (env : KmsEnv) (k : String) : Run Nat :=
+  wrap (.kmsPub k) (do
+    let s ← getSt
+    match lookup s.keys k with
+    | some m => pure m
+    | none =>
+      match lookup s.kdead k with
+      | some .disabled => ofOption env.pubDisabled
+      | _ => throw)
 
 /-- AsymmetricSign: returns the material that signed -/
 def kmsSign (k : String) : Run Nat :=
@@ -102,11 +156,19 @@ def kmsWait (env : KmsEnv) (k : String) : Nat → Run String
     | .pending => if env.deadline then throw else kmsWait env k fuel
     | .other => throw
 
-/-- go: gcpkms.Manager.CreateNewSigningKeyVersion -/
+/-- go: gcpkms.Manager.CreateNewSigningKeyVersion — the state in the response is not looked at: the
+    version is always polled -/
 def kmCreateK (env : KmsEnv) : Run String :=
   wrap .kmCreate (do
-    let k ← kmsCreate env
-    kmsWait env k (env.gen + 1))
+    let r ← kmsCreate env
+    kmsWait env r.1 (env.gen + 1))
+
+/-- CreateNewSigningKeyVersion as changed by seeded/C10-G: "the response already reports the state, so the
+    wait is only needed while the key is still being generated" -/
+def kmCreateKTrust (env : KmsEnv) : Run String :=
+  wrap .kmCreate (do
+    let r ← kmsCreate env
+    if r.2 = .pending then kmsWait env r.1 (env.gen + 1) else pure r.1)
 
 /-- go: gcpkms.Manager.DestroyKeyVersion -/
 def kmDestroyK (k : String) : Run Unit :=
@@ -117,8 +179,8 @@ def destroyOldK (cur : String) : Run Unit :=
   if cur ≠ "" then kmDestroyK cur else pure ()
 
 /-- go: gcpkms.Signer.PublicKey -/
-def sgPubK (k : String) : Run Nat :=
-  wrap (.sgPub k) (kmsPub k)
+def sgPubK (env : KmsEnv) (k : String) : Run Nat :=
+  wrap (.sgPub k) (kmsPub env k)
 
 /-- go: gcpkms.Signer.Sign — the signer options are the ones crypto/x509 passes for SHA256-RSAPSS; after
     the call the signature CRC and the two `verified` flags are checked. -/
@@ -130,18 +192,18 @@ def sgSignK (env : KmsEnv) (k : String) : Run Nat :=
 /-- go: sops.CreateCertificateFromTemplate → x509.CreateCertificate over the Cloud KMS signer -/
 def createCertificateK (cfg : Cfg) (env : KmsEnv) (req : Req) (subjPub : Nat) (issuerKey : String)
     (issuer : Option Cert) : Run Cert := do
-  let pre ← repeatRun cfg.pubPre (sgPubK issuerKey)
+  let pre ← repeatRun cfg.pubPre (sgPubK env issuerKey)
   if !parentMatches issuer pre then throw
   else do
     let by_ ← sgSignK env issuerKey
-    let _ ← repeatRun cfg.pubPost (sgPubK issuerKey)
+    let _ ← repeatRun cfg.pubPost (sgPubK env issuerKey)
     pure ⟨req.cn, req.serial, subjPub, by_⟩
 
 /-- go: rotate.signCert with the Cloud KMS manager: Manager.CertificateTemplate is
     rotate.GoogleCertificateTemplate, which makes no external call -/
 def signCertK (cfg : Cfg) (env : KmsEnv) (req : Req) (mu : Mut) (issuer : Cert) (subject issuerKey : String) :
     Run (Mut × Cert) := do
-  let subjPub ← sgPubK subject
+  let subjPub ← sgPubK env subject
   let c ← createCertificateK cfg env req subjPub issuerKey (some issuer)
   let mu' ← mutAddCert cfg mu subject c
   pure (mu', c)
@@ -173,6 +235,19 @@ def rotateKeyKmsEarlyDestroy (cfg : Cfg) (env : KmsEnv) (req : Req) : Run String
     let mu ← mutSetPrimary cfg mu kver
     destroyOldK cur
     caFinalize cfg mu mu.certs
+    pure kver
+
+/-- rotate.Key over the changed CreateNewSigningKeyVersion (`kmCreateKTrust`), kept for the witness
+    `C10_kms_trust_response_breaks` -/
+def rotateKeyKmsTrustResponse (cfg : Cfg) (env : KmsEnv) (req : Req) : Run String := do
+  let kver ← kmCreateKTrust env
+  let (cur, root, issuer) ← getCurrentInfo cfg
+  if root = "" ∨ kver = "" then throw
+  else do
+    let (mu, _) ← signCertK cfg env req {} issuer kver root
+    let mu ← mutSetPrimary cfg mu kver
+    caFinalize cfg mu mu.certs
+    destroyOldK cur
     pure kver
 
 end GceTcb.CA
